@@ -18,7 +18,7 @@ Lemma bparse_S d sc mi ic r :
   bparse (S d) sc mi ic r =
   match nth_error sc mi with
   | None => Err E_NOMODEL
-  | Some m => b_ploop (bparse d sc) (S (Z.to_nat (br_len r))) m ic (init_pst m) (-1)%Z r
+  | Some m => b_ploop (bparse d sc) (S (Z.to_nat (br_len r - br_pos r))) m ic (init_pst m) (-1)%Z r
   end.
 Proof. reflexivity. Qed.
 
